@@ -614,6 +614,7 @@ type vfC41A struct {
 	tables   []string
 	preNonce *vfC41Nonce // nonce that was issued to this connection before it authenticated
 	openTran ITran       // server side object of openTn (only to clean up after the connection was killed)
+	broken   string      // an authorized, valid request failed
 }
 
 // vfC41FindTran finds the server side transaction object of an open transaction.
@@ -703,9 +704,13 @@ func (a *vfC41A) must(q *vfC41Req, r *rand.Rand) *vfC41Rd {
 		return nil
 	}
 	if !ok {
+		// an authorized request with valid arguments was answered with an error: the session is not
+		// what it was (e.g. a response of some other request was delivered to it)
 		msg := ""
 		vk.Catch(func() { msg = rd.str() })
-		panic("C41 harness: authenticated request failed: " + q.desc.String() + ": " + msg)
+		a.broken = q.desc.String() + " answered: " + vk.Trunc(msg, 120)
+		a.w.close()
+		return nil
 	}
 	return rd
 }
@@ -865,7 +870,7 @@ func TestVerifC41(t *testing.T) {
 	a := &vfC41A{}
 	a.connect(env, m, rep)
 
-	nseq := vk.N(2000, 120000)
+	nseq := vk.N(2000, 80000)
 	var selfTokens []string
 	for seq := 0; seq < nseq; seq++ {
 		r := vk.RandFor(41, seq)
@@ -953,7 +958,7 @@ func TestVerifC41(t *testing.T) {
 				}
 			}
 		}
-		overlapped := false
+
 		genInt := func() int64 {
 			pool := []int64{0, 0, 1, 2, 3, -1, a.openTn, a.readTn, a.readQn, a.cursor, lastNum.Load(), lastNum.Load() - 1, int64(r.IntN(50))}
 			pool = append(pool, u.tns...)
@@ -1374,38 +1379,6 @@ func TestVerifC41(t *testing.T) {
 				}
 			}
 		}
-		// occasionally: several requests on ONE session id without waiting for the responses. The
-		// responses may legitimately be in any order/garbled for this misbehaving session, so they are
-		// not judged; what is judged is everything else afterwards (other sessions, database, server).
-		if !u.w.dead && !u.authed && r.IntN(12) == 0 {
-			overlapped = true
-			n := 2 + r.IntN(3)
-			sent := 0
-			osid := uint32(5000 + r.IntN(3))
-			for i := 0; i < n; i++ {
-				cmd := commands.Command(r.IntN(int(commands.Asof) + 1))
-				switch cmd {
-				case commands.Nonce, commands.Auth, commands.Kill, commands.Token, commands.SessionId:
-					cmd = commands.EndSession
-				}
-				q := gen(cmd)
-				if u.w.send(osid, q.b, nil) != nil {
-					break
-				}
-				if cmd != commands.EndSession {
-					sent++
-				}
-				steps = append(steps, vfC41Step{Sid: osid, Req: q.desc.String() + " [overlapping]", Resp: "(not judged)"})
-			}
-			rep.Count("overlapping_requests", sent)
-			// collect what comes back (at most one message per request that has a response); a final
-			// request on a fresh session id acts as a barrier
-			q := vfC41NewReq(byte(commands.Libraries))
-			vfC41Call(u.w, 5100, q, nil)
-			checkSideEffects(q, "overlapping-requests")
-			retire(osid)
-		}
-
 		// occasionally: frames that are not requests at all (framing level hostility)
 		if !u.w.dead && !u.authed && r.IntN(25) == 0 {
 			q := vfC41NewReq(0)
@@ -1453,16 +1426,18 @@ func TestVerifC41(t *testing.T) {
 		}
 		if !a.w.dead {
 			if dmg := a.verify(r, rep, true); dmg != "" {
-				cl := "C41/other-session-affected/" + strings.SplitN(dmg, " ", 2)[0]
-				if overlapped {
-					cl += "/after-overlapping-requests"
-				}
-				rep.Violate(cl, fmt.Sprintf("seq %d", seq),
+				rep.Violate("C41/other-session-affected/"+strings.SplitN(dmg, " ", 2)[0], fmt.Sprintf("seq %d", seq),
 					map[string]any{"damage": dmg, "authenticated_session": a.name, "history": witness()})
 				a.w.close()
 			} else {
 				rep.Count("authenticated_session_intact_checks", 1)
 			}
+		}
+		if a.broken != "" {
+			rep.Violate("C41/other-session-affected/request-failed", vfC41Digits(a.broken),
+				map[string]any{"what": "a valid request of the authenticated connection was answered with an error", "request_and_answer": a.broken,
+					"authenticated_session": a.name, "history": witness()})
+			a.broken = ""
 		}
 		if rep.WantSample() && len(steps) > 10 {
 			rep.Sample(map[string]any{"seq": seq, "steps": steps[:10]})
@@ -1473,6 +1448,121 @@ func TestVerifC41(t *testing.T) {
 		}
 		rep.Count("sequences", 1)
 	}
+
+	// ---- phase 2: requests that overlap on ONE session id of an unauthenticated connection.
+	// The server handles one request per session at a time; a client that does not wait for the
+	// response breaks that assumption. Its own responses may then be garbled (not judged). What the
+	// statement promises is that OTHER sessions are not affected: the authenticated connection keeps
+	// sending requests meanwhile and every one of them must get its own, correct response.
+	nov := vk.N(600, 16000)
+	refused := []func() *vfC41Req{
+		func() *vfC41Req { return vfC41NewReq(byte(commands.Transaction)).bool_(1) },
+		func() *vfC41Req { return vfC41NewReq(byte(commands.Size)) },
+		func() *vfC41Req { return vfC41NewReq(byte(commands.Info)) },
+		func() *vfC41Req { return vfC41NewReq(byte(commands.Check)).bool_(0) },
+		func() *vfC41Req { return vfC41NewReq(byte(commands.Cursor)).str("data") },
+		func() *vfC41Req { return vfC41NewReq(byte(commands.Run)).str("1 + 1") },
+		func() *vfC41Req { return vfC41NewReq(byte(commands.Libraries)) },
+		func() *vfC41Req { return vfC41NewReq(byte(commands.LibGet)).str("VfThing") },
+		func() *vfC41Req { return vfC41NewReq(byte(commands.EndSession)) },
+		func() *vfC41Req { return vfC41NewReq(byte(commands.Abort)).int_(3) },
+	}
+	for i := 0; i < nov; i++ {
+		r := vk.RandFor(4102, i)
+		rep.Case("overlap %d", i)
+		if a.w.dead {
+			a.connect(env, m, rep)
+		}
+		w, err := vfC41Dial(env.local, env.scfg)
+		if err != nil {
+			panic("C41 harness: dial: " + err.Error())
+		}
+		deaths0, fatals0 := vfC41ServerDeaths.Load(), vfC41FatalCalls.Load()
+		done := make(chan string, 1)
+		nA := 0
+		go func() {
+			bad := ""
+			for k := 0; k < 25 && bad == ""; k++ {
+				rd, ok, alive := vfC41Call(a.w, a.sid, vfC41NewReq(byte(commands.SessionId)).str(""), nil)
+				nA++
+				switch {
+				case !alive:
+					bad = "connection-closed"
+				case !ok:
+					msg := ""
+					vk.Catch(func() { msg = rd.str() })
+					bad = "error-response: " + vk.Trunc(msg, 100)
+				default:
+					got := "?"
+					vk.Catch(func() { got = rd.str() })
+					if got != a.name || len(rd.b) != 0 {
+						bad = "wrong-response: " + vk.Trunc(fmt.Sprintf("%q +%d bytes", got, len(rd.b)), 100)
+					}
+				}
+			}
+			done <- bad
+		}()
+		var burst []string
+		for b := 0; b < 4 && !w.dead; b++ {
+			osid := uint32(1 + r.IntN(3))
+			for k := 2 + r.IntN(4); k > 0; k-- {
+				q := refused[r.IntN(len(refused))]()
+				if w.send(osid, q.b, nil) != nil {
+					break
+				}
+				burst = append(burst, fmt.Sprintf("sid %d: %s", osid, q.desc.String()))
+				rep.Count("overlapping_requests", 1)
+			}
+		}
+		var bad string
+		select {
+		case bad = <-done:
+		case <-time.After(2 * time.Minute):
+			// no answer to a request of the authenticated connection (e.g. its worker died). A time
+			// limit must not decide a verdict: the burst is given up and counted, nothing else.
+			rep.Count("overlap_bursts_given_up_no_response", 1)
+			a.w.close()
+			<-done
+			w.close()
+			continue
+		}
+		rep.Count("overlap_bursts", 1)
+		rep.Count("overlap_authenticated_requests", nA)
+		rep.Eval(vk.Hash64("overlap", strings.Join(burst, ";")), len(burst) >= 4)
+		if bad != "" {
+			kind, _, _ := strings.Cut(bad, ":")
+			rep.Violate("C41/other-session-affected/"+kind+"/overlapping-requests", vfC41Digits(bad),
+				map[string]any{"what": "while an unauthenticated connection sent several requests on one session id without waiting for the responses, " +
+					"a SessionId(\"\") request of the authenticated connection (session " + a.name + ") got: " + bad,
+					"unauthenticated_requests": burst, "case": i, "shard": vk.Shard(), "seed": vk.Seed()})
+			a.w.close()
+		}
+		if d := vfC41ServerDeaths.Load(); d != deaths0 {
+			last, _ := vfC41LastDeath.Load().(string)
+			rep.Violate("C41/unauth-request-terminates-server/overlapping-requests", vfC41Digits(last), map[string]any{"panic": last, "unauthenticated_requests": burst})
+		}
+		if f := vfC41FatalCalls.Load(); f != fatals0 {
+			rep.Violate("C41/unauth-request-terminates-server/overlapping-requests", "core.Fatal", map[string]any{"unauthenticated_requests": burst})
+		}
+		w.close()
+	}
+}
+
+func vfC41Digits(s string) string {
+	var sb strings.Builder
+	prev := false
+	for _, c := range s {
+		if c >= '0' && c <= '9' {
+			if !prev {
+				sb.WriteByte('N')
+			}
+			prev = true
+		} else {
+			sb.WriteRune(c)
+			prev = false
+		}
+	}
+	return sb.String()
 }
 
 func vfC41Diff(a, b string) string {
